@@ -122,7 +122,9 @@ class Gen:
         v = r.randrange(-20, 21)
         k = r.random()
         items = [f"i{i}" for i, it in enumerate(ref.items) if it is not None]
-        if k < 0.25:
+        if k < 0.02 and len(ref.stacks) < 4:
+            self.emit(["nspop"])
+        elif k < 0.25:
             self.emit(["push", S, v])
         elif k < 0.37:
             self.emit(["spop", S])
@@ -166,6 +168,8 @@ def corpus():
         # D16: removing a non-head item must unlink it
         "(seq (newstack) (push S0 1) (push S0 2) (push S0 3) (head S0) (snext i0) (srm i1) (siter S0) (sjson S0))",
         "(seq (newlist) (unjson L0 (1 2 3)) (json L0) (piter L0) (popf L0) (rpiter L0))",
+        # Pop on a zero-value stack must not disable later pushes
+        "(seq (nspop) (push S0 1) (push S0 2) (siter S0))",
     ]
 
 
@@ -194,6 +198,7 @@ def predicate(line, obs, allow_known=False):
         except Unspecified:
             return None
         want = want_r + " " + ref.dump()
+        o = mask_sentinels(o, want)
         if o != want:
             if op[0] == "sortm":
                 # only permutation + sortedness is promised for SortMerge; if the implementation's
@@ -204,6 +209,18 @@ def predicate(line, obs, allow_known=False):
             return (f"op {i} {C.sx(op)}: implementation shows `{diff_part(o, want)[0]}` but the sequence model "
                     f"says `{diff_part(o, want)[1]}`")
     return None
+
+
+def mask_sentinels(got, want):
+    """the reference prints `*` for bottom sentinels: copy that mask onto the observation"""
+    if "*" not in want or " I[" not in got or " I[" not in want:
+        return got
+    gh, gi = got.rsplit(" I[", 1)
+    wi = want.rsplit(" I[", 1)[1]
+    gparts, wparts = gi[:-1].split(" "), wi[:-1].split(" ")
+    if len(gparts) != len(wparts):
+        return got
+    return gh + " I[" + " ".join("*" if w == "*" else g for g, w in zip(gparts, wparts)) + "]"
 
 
 def sortm_ok(ref, op, got):
@@ -266,7 +283,7 @@ def shrink(line, fails):
             best = ops[:n]
             break
     reg = ("le", "popf", "popb", "front", "back", "next", "prev", "app", "si", "spop", "head", "snext", "sapp",
-           "newlist", "newstack", "copy")
+           "newlist", "newstack", "copy", "nspop")
     i = len(best) - 2
     budget = 120
     while i >= 0 and budget > 0:
